@@ -167,10 +167,61 @@ def fd_registered():
                               "a sequence of primaries on one handler was not answered one reply each, in order, with matching system bytes")
             finally:
                 H.shutdown(proto, conn)
+        # the callback table changes BETWEEN messages for the same function, through both public interfaces
+        # (register/unregister_stream_function and attribute assignment on handler.callbacks): the next message must see the new table
+        with H.virtual_timers():
+            handler, proto, conn = H.make_gem(kind)
+            try:
+                H.gem_to_communicating(handler, proto, conn)
+                body = R.encode(("L", [("B", b"\x01"), ("A", "t")]))
+                had_builtin = hasattr(handler, "_on_s10f03")
+                total += 1
+                steps = []
+
+                def ask(sysb, s=10, f=3, b=body):
+                    conn.sent.clear()
+                    conn.feed(H.frame(0, sysb, s, f, True, b))
+                    return [(x["stream"], x["function"], x["system"]) for x in conn.frames() if x["stype"] == 0]
+                no_cb = lambda sysb: [(10, 4, sysb)] if had_builtin else [(9, 5, sysb)]
+                steps.append(("no callback yet", ask(601), no_cb(601)))
+                handler.callbacks.s10f03 = lambda h, m: h.stream_function(10, 4)(0)
+                steps.append(("after handler.callbacks.s10f03 = cb", ask(602), [(10, 4, 602)]))
+                handler.callbacks.s10f03 = None
+                steps.append(("after handler.callbacks.s10f03 = None", ask(603), no_cb(603)))
+                handler.register_stream_function(10, 3, lambda h, m: h.stream_function(10, 4)(0))
+                steps.append(("after register_stream_function", ask(604), [(10, 4, 604)]))
+                handler.unregister_stream_function(10, 3)
+                steps.append(("after unregister_stream_function", ask(605), no_cb(605)))
+                bad = [(label, got, want) for label, got, want in steps if got != want]
+                if bad:
+                    fails.add("table-change-between-messages", {"handler": kind, "first_difference": {"step": bad[0][0], "got": bad[0][1], "want": bad[0][2]}},
+                              "after the callback table changed, the next primary for that function was not answered according to the new table")
+            finally:
+                H.shutdown(proto, conn)
+        # an own request of this endpoint runs into T3; later the peer uses the same system bytes for a primary with W-bit
+        with H.virtual_timers():
+            handler, proto, conn = H.make_gem(kind)
+            try:
+                H.gem_to_communicating(handler, proto, conn)
+                proto._settings.timeouts.t3 = 0.05
+                total += 1
+                conn.sent.clear()
+                rsp = handler.send_and_waitfor_response(handler.stream_function(1, 1)())
+                own = [x["system"] for x in conn.frames() if x["stype"] == 0 and (x["stream"], x["function"]) == (1, 1)]
+                conn.sent.clear()
+                if own:
+                    conn.feed(H.frame(0, own[-1], 1, 1, True, b""))
+                got = [(x["stream"], x["function"], x["system"]) for x in conn.frames() if x["stype"] == 0]
+                if rsp is not None or not own or got != [(1, 2, own[-1])]:
+                    fails.add("primary-after-own-timeout-answered", {"handler": kind, "own_request_system": own[-1:] , "own_result": str(rsp)[:40], "replies": got},
+                              "after an own request timed out (T3), a primary of the peer carrying the same system bytes was not answered exactly once")
+            finally:
+                H.shutdown(proto, conn)
     by = {}
     for f in fails:
         by.setdefault(f["obligation"], f)
-    names = ["callback-raises.abort-once", "callback-none.no-reply", "callback-reply.exactly-once", "no-w-bit.no-reply", "sequence.one-reply-each-in-order"]
+    names = ["callback-raises.abort-once", "callback-none.no-reply", "callback-reply.exactly-once", "no-w-bit.no-reply", "sequence.one-reply-each-in-order",
+             "table-change-between-messages", "primary-after-own-timeout-answered"]
     obs = [{"name": n, "ok": n not in by, "witness": by[n]["witness"] if n in by else None, "detail": by[n]["detail"] if n in by else ""} for n in names]
     return {"obligations": obs, "domain": "2 handlers x 5 functions x 3 callback behaviours x W-bit + register/unregister and burst sequences", "size": total,
             "exhaustive": True, "samples": [{"callback": "raises", "expect": "SxF0"}]}
